@@ -352,6 +352,10 @@ def handle (op : String) (args : List String) : Option String :=
         pure (RootNode.dir t, t)
       | _ => none
     pure ("wf=" ++ boolStr t.wf ++ " " ++ showWalk (walk root rn))
+  | "refused", [fs, chain] => do
+    let fs ← parseFs fs
+    let chain ← pathList chain
+    pure (boolStr (refusedBy fs chain))
   | "reach", [e, env, v] => do
     let te := tokens e
     let tn := tokens env
@@ -411,7 +415,7 @@ def handle (op : String) (args : List String) : Option String :=
     -- the decidable hypotheses of the theorems, evaluated on the replayed state
     let b := fun (x : Bool) => if x then "1" else "0"
     pure (showState (run c s evs) ++ " hyp=" ++ b (cfgOKB c s) ++ b (pathKindsB s.disk) ++ b (sepB s.disk) ++
-      b (linksTopB s.disk))
+      b (linksTopB s.disk) ++ b (s.disk.all fun d => cleanAbs d.path == d.path))
   | "mergeevents", [evs] => do
     let evs ← parseEvents evs
     pure (showEvents (mergeEvents evs))
